@@ -34,7 +34,19 @@ pub proof fn lemma_lg2(x: int)
     ensures lg2(x) >= 0, pow2(lg2(x)) <= x, x < pow2(lg2(x) + 1)
     decreases x
 {
-    if x > 1 { lemma_lg2(x / 2); }
+    if x > 1 {
+        let h = x / 2;
+        lemma_lg2(h);
+        assert(lg2(x) == 1 + lg2(h));
+        assert(pow2(lg2(x)) == 2 * pow2(lg2(h)));
+        assert(pow2(lg2(x) + 1) == 2 * pow2(lg2(h) + 1));
+        assert(2 * h <= x < 2 * h + 2);
+        assert(h + 1 <= pow2(lg2(h) + 1));
+    } else {
+        reveal_with_fuel(pow2, 3);
+        assert(lg2(x) == 0);
+        assert(pow2(0) == 1 && pow2(1) == 2);
+    }
 }
 /// width is the least b with max - min < 2^b
 pub proof fn lemma_width(min: i64, max: i64)
